@@ -118,7 +118,7 @@ def schedTrace (toks : List String) : Option String := do
     let body1 := (o.drop 1).toString
     let body2 := (o.drop 2).toString
     let mut top : Option Spec.SchedTrace.TOp := none
-    if o.startsWith "o" then top := some (.open_ (← body1.toNat?))
+    if o.startsWith "o" then top := some (.open_ (← ((body1.splitOn ".").headD "").toNat?))   -- (o<id>.<pusher>: priority kind)
     else if o.startsWith "c" then top := some (.close (← body1.toNat?))
     else if o.startsWith "a" then top := some .adjust
     else if o.startsWith "pd" then
